@@ -489,6 +489,9 @@ func coqCases(out outcome, owner map[string]int) []string {
 			}
 		}
 		sort.Slice(ws, func(i, j int) bool { return ws[i].N < ws[j].N })
+		if len(ws) > 300 {
+			ws = ws[:300] // a prefix of a history is a history; keeps the Coq case small
+		}
 		for _, w := range ws {
 			idx, ok := owner[fmt.Sprintf("%d/%d", proto, w.N)]
 			if !ok {
@@ -579,4 +582,4 @@ func run(c *vh.Ctx) error {
 	return nil
 }
 
-func main() { vh.Main(vh.Runner{Property: "C25", Run: run}) }
+func main() { vh.Main(vh.Runner{Property: "C25", Run: run, Gen: gen}) }
